@@ -302,6 +302,9 @@ type c20sWorker struct {
 
 var c20sW *c20sWorker
 
+// c20sMuts: the per-parser mutators (seeds of the shipped parsers), shared with the reuse family.
+var c20sMuts map[string]*c20sMut
+
 func c20sNewWorker() *c20sWorker {
 	w := &c20sWorker{jobs: make(chan func()), done: make(chan struct{}, 1)}
 	go func() {
@@ -1203,6 +1206,7 @@ func c20Shipped(c *Ctx) {
 		"test": {rng, texts("test"), "{}()[];:,.+-%\\ \n/*!<>=\"'", nil},
 	}
 
+	c20sMuts = muts
 	q := func(s string) string { return fmt.Sprintf("%q", s) }
 	dead := func(p string) bool {
 		if st.timeouts[p] >= 3 {
